@@ -78,6 +78,10 @@ type intEnv map[ssa.Value]int64
 func (e intEnv) key() string {
 	var names []string
 	for v, n := range e {
+		if in, ok := v.(ssa.Instruction); ok && in.Parent() != nil {
+			names = append(names, fmt.Sprintf("%s.%s=%d", in.Parent().Name(), v.Name(), n))
+			continue
+		}
 		names = append(names, fmt.Sprintf("%s=%d", v.Name(), n))
 	}
 	sort.Strings(names)
@@ -119,7 +123,16 @@ type plRun struct {
 	events   int
 	states   int
 	successReturns int
+	// inlined helper: where the caller continues (nil for the root run)
+	onReturn func(dfa int, fact tokFact, pending bool, trace []string, outcome int)
+	stack    []*ssa.Function
 }
+
+// outcome of an inlined call, recorded in the path's intEnv under the call
+const (
+	outFail    = 0
+	outSuccess = 1
+)
 
 func (c *Ctx) movesCursor(f *ssa.Function) bool {
 	if f == nil || f.Signature.Recv() == nil {
@@ -164,6 +177,60 @@ func (p *plRun) isCurrentTok(v ssa.Value) bool {
 		return len(v.Edges) > 0
 	}
 	return false
+}
+
+// inlinable: a helper method of the parser whose body is explored in place
+// (bounded depth, no recursion).
+func (p *plRun) inlinable(f *ssa.Function) bool {
+	if f == nil || f.Blocks == nil || len(p.stack) >= 3 || f == p.fn {
+		return false
+	}
+	for _, s := range p.stack {
+		if s == f {
+			return false
+		}
+	}
+	c := p.c
+	switch f {
+	case c.A.Advance, c.A.Match, c.A.ParseExpr, c.A.Tokenize, c.A.Nud, c.A.Led, c.A.Parse:
+		return false
+	}
+	return errIndex(f.Signature) >= 0 || f.Signature.Results().Len() == 0
+}
+
+// errOutcome: is the error value v nil on this path? outSuccess (nil),
+// outFail (non-nil) or -1 (not known).
+func (p *plRun) errOutcome(v ssa.Value, ints intEnv) int {
+	if v == nil {
+		return outSuccess
+	}
+	if isNilConst(v) {
+		return outSuccess
+	}
+	if o, ok := ints[v]; ok {
+		return int(o)
+	}
+	switch x := v.(type) {
+	case *ssa.Extract:
+		if call, ok := x.Tuple.(*ssa.Call); ok {
+			if o, ok := ints[call]; ok {
+				return int(o)
+			}
+		}
+	case *ssa.Call:
+		if o, ok := ints[x]; ok {
+			return int(o)
+		}
+		if neverNilError(p.c, x) {
+			return outFail
+		}
+	case *ssa.MakeInterface:
+		return outFail
+	}
+	if neverNilError(p.c, v) {
+		return outFail
+	}
+	return -1
 }
 
 func (p *plRun) fail(pos token.Pos, trace []string, what string) {
@@ -223,10 +290,21 @@ func (p *plRun) walkE(cf plConfig, trace []string, prev *ssa.BasicBlock, ints in
 	}
 	p.visited[cf] = true
 	p.states++
+	p.run(cf, 0, trace, ints)
+}
+
+// run interprets the instructions of cf.blk from index start.
+func (p *plRun) run(cf plConfig, start int, trace []string, ints intEnv) {
 	c := p.c
 	dfa, fact, pending := cf.dfa, cf.fact, cf.pending
 	next := func(b *ssa.BasicBlock, d int, f tokFact, pend bool, tr []string) {
 		p.walkE(plConfig{blk: b, dfa: d, fact: f, pending: pend}, tr, cf.blk, ints)
+	}
+	// nextF: as next, with the fact "error value v is nil / is not nil" on the path
+	nextF := func(b *ssa.BasicBlock, d int, f tokFact, pend bool, tr []string, v ssa.Value, outcome int) {
+		i2 := ints.clone()
+		i2[v] = int64(outcome)
+		p.walkE(plConfig{blk: b, dfa: d, fact: f, pending: pend}, tr, cf.blk, i2)
 	}
 	ev := func(pos token.Pos, e string) bool {
 		p.events++
@@ -245,7 +323,17 @@ func (p *plRun) walkE(cf plConfig, trace []string, prev *ssa.BasicBlock, ints in
 	}
 	var lastMatch *matchInfo
 	var lastParse *ssa.Call
-	for _, in := range cf.blk.Instrs {
+	for idx := start; idx < len(cf.blk.Instrs); idx++ {
+		in := cf.blk.Instrs[idx]
+		// a register that is defined again (next loop iteration) loses its path fact
+		if v, ok := in.(ssa.Value); ok {
+			if _, isPhi := in.(*ssa.Phi); isPhi {
+				// set at block entry
+			} else if _, has := ints[v]; has {
+				ints = ints.clone()
+				delete(ints, v)
+			}
+		}
 		if p.within != nil && !p.within(in) {
 			if _, ok := in.(*ssa.Return); ok {
 				// left the clause: stop
@@ -313,6 +401,28 @@ func (p *plRun) walkE(cf plConfig, trace []string, prev *ssa.BasicBlock, ints in
 				if !ev(in.Pos(), "T") {
 					return
 				}
+			case c.movesCursor(callee) && p.inlinable(callee):
+				if lastMatch != nil {
+					p.unknown(in.Pos(), trace, "a match result is still unexamined when a helper is called")
+					return
+				}
+				sub := &plRun{c: c, fn: callee, spec: p.spec, visited: map[plConfig]bool{}, stack: append(append([]*ssa.Function(nil), p.stack...), p.fn)}
+				call, blk, resume := in, cf.blk, idx+1
+				sub.onReturn = func(d int, f tokFact, pend bool, tr []string, outcome int) {
+					ints2 := ints.clone()
+					ints2[call] = int64(outcome)
+					p.run(plConfig{blk: blk, dfa: d, fact: f, pending: pend}, resume, tr, ints2)
+				}
+				sub.walkE(plConfig{blk: callee.Blocks[0], dfa: dfa, fact: fact, pending: pending}, append([]string(nil), trace...), nil, intEnv{})
+				p.states += sub.states
+				p.events += sub.events
+				for _, f := range sub.findings {
+					p.fail(f.pos, f.trace, f.what)
+				}
+				for _, f := range sub.undecided {
+					p.unknown(f.pos, f.trace, f.what)
+				}
+				return
 			case c.movesCursor(callee):
 				if !ev(in.Pos(), "call:"+callee.Name()) {
 					return
@@ -321,7 +431,27 @@ func (p *plRun) walkE(cf plConfig, trace []string, prev *ssa.BasicBlock, ints in
 			}
 		case *ssa.Return:
 			errSlot := errIndex(p.fn.Signature)
-			if errSlot >= 0 && isNilConst(retResults(in)[errSlot]) {
+			if p.onReturn != nil {
+				if lastMatch != nil {
+					p.unknown(in.Pos(), trace, "return with an unexamined match result")
+					return
+				}
+				var errv ssa.Value
+				if errSlot >= 0 {
+					errv = retResults(in)[errSlot]
+				}
+				switch p.errOutcome(errv, ints) {
+				case outSuccess:
+					p.onReturn(dfa, fact, pending, trace, outSuccess)
+				case outFail:
+					p.onReturn(dfa, fact, pending, trace, outFail)
+				default:
+					p.onReturn(dfa, fact, pending, trace, outSuccess)
+					p.onReturn(dfa, fact, pending, trace, outFail)
+				}
+				return
+			}
+			if errSlot >= 0 && p.errOutcome(retResults(in)[errSlot], ints) == outSuccess {
 				p.successReturns++
 				if lastMatch != nil {
 					p.unknown(in.Pos(), trace, "success return with an unexamined match result")
@@ -348,7 +478,7 @@ func (p *plRun) walkE(cf plConfig, trace []string, prev *ssa.BasicBlock, ints in
 					k := lastMatch.tok
 					// failure edge: cursor unchanged, current != k
 					if !fact.mustBe(k) {
-						next(cf.blk.Succs[failIdx], dfa, fact.without(k), pending, trace)
+						nextF(cf.blk.Succs[failIdx], dfa, fact.without(k), pending, trace, lastMatch.call, outFail)
 					}
 					// success edge
 					if fact.canBe(k) {
@@ -359,13 +489,25 @@ func (p *plRun) walkE(cf plConfig, trace []string, prev *ssa.BasicBlock, ints in
 						if !ok {
 							p.fail(lastMatch.call.Pos(), tr, fmt.Sprintf("event %q is not allowed here (%s; automaton state %d)", e, p.spec.events, dfa))
 						} else {
-							next(cf.blk.Succs[1-failIdx], n, tokFact{}, pending, tr)
+							nextF(cf.blk.Succs[1-failIdx], n, tokFact{}, pending, tr, lastMatch.call, outSuccess)
 						}
 					}
 					return
 				}
 				p.unknown(in.Pos(), trace, "the result of match() is not tested by the branch that follows it")
 				return
+			}
+			// the error of an inlined helper call?
+			if bo, ok := in.Cond.(*ssa.BinOp); ok && (bo.Op == token.NEQ || bo.Op == token.EQL) && isNilConst(bo.Y) {
+				if o := p.errOutcome(bo.X, ints); o == outSuccess || o == outFail {
+					isNil := o == outSuccess
+					idx := 1
+					if (bo.Op == token.EQL) == isNil {
+						idx = 0
+					}
+					next(cf.blk.Succs[idx], dfa, fact, pending, trace)
+					return
+				}
 			}
 			// a decided comparison of small integers (loop counters)?
 			if bo, ok := in.Cond.(*ssa.BinOp); ok {
@@ -400,8 +542,17 @@ func (p *plRun) walkE(cf plConfig, trace []string, prev *ssa.BasicBlock, ints in
 						return
 					}
 				}
-				// error test of the last parse: both edges, same state
 				_ = lastParse
+			}
+			// test of some other error value against nil: both edges, each with its fact
+			if bo, ok := in.Cond.(*ssa.BinOp); ok && (bo.Op == token.EQL || bo.Op == token.NEQ) && isNilConst(bo.Y) && isErrorType(bo.X.Type()) {
+				nilIdx := 0
+				if bo.Op == token.NEQ {
+					nilIdx = 1
+				}
+				nextF(cf.blk.Succs[nilIdx], dfa, fact, pending, trace, bo.X, outSuccess)
+				nextF(cf.blk.Succs[1-nilIdx], dfa, fact, pending, trace, bo.X, outFail)
+				return
 			}
 			for _, s := range cf.blk.Succs {
 				next(s, dfa, fact, pending, trace)
@@ -551,72 +702,148 @@ func init() {
 	register("P-SLICE0", ruleSliceStepZero)
 }
 
-// P-CALLEE: a call's callee is an identifier node.
+// P-CALLEE: a call's callee is an identifier node. Anchored on the
+// construction of the ASTFunctionExpression node, wherever it lives: the node
+// N whose payload becomes the function name must have been tested for
+// nodeType == ASTField on every path to the construction, and N must be the
+// node to the left of '(' (led's node parameter, possibly handed to a helper).
 func ruleCallee(c *Ctx) *RuleResult {
-	r := &RuleResult{Doc: "led(tLparen): every success return is dominated by the test that the left node is an ASTField", Floor: 1}
-	fn := c.A.Led
-	sw, _ := c.switchLabels(fn, c.A.TokT)
-	cl := sw.clause("tLparen")
-	if cl == nil {
-		lost("led has no tLparen clause")
-	}
-	var nodeParam *ssa.Parameter
-	for _, p := range fn.Params {
-		if c.isASTNode(p.Type()) {
-			nodeParam = p
-		}
-	}
-	if nodeParam == nil {
-		lost("led has no node parameter")
-	}
-	spill := paramSpill(nodeParam)
-	// blocks entered only when node.nodeType == ASTField
-	var guards []*ssa.BasicBlock
-	for _, b := range fn.Blocks {
-		ifi := blockIf(b)
-		if ifi == nil {
-			continue
-		}
-		bo, ok := ifi.Cond.(*ssa.BinOp)
-		if !ok || (bo.Op != token.EQL && bo.Op != token.NEQ) {
-			continue
-		}
-		k, ok := constInt(bo.Y)
-		if !ok || k != c.A.NT["ASTField"] || !types.Identical(bo.Y.Type(), c.A.NodeTypeT) {
-			continue
-		}
-		base, fld, ok := fieldRead(bo.X)
-		if !ok || fld != fNodeType || !(base == nodeParam || (spill != nil && base == spill)) {
-			continue
-		}
-		idx := 0
-		if bo.Op == token.NEQ {
-			idx = 1
-		}
-		s := b.Succs[idx]
-		if len(s.Preds) == 1 {
-			guards = append(guards, s)
-		}
-	}
-	n := 0
-	for _, b := range fn.Blocks {
-		ret := blockReturn(b)
-		if ret == nil || sw.clauseAt(instrPos(ret)) != cl || !isNilConst(retResults(ret)[1]) {
-			continue
-		}
-		n++
-		r.Instances++
-		key := fmt.Sprintf("callee|return#%d", n)
-		dominated := false
-		for _, g := range guards {
-			if g.Dominates(b) {
-				dominated = true
+	r := &RuleResult{Doc: "every construction of an ASTFunctionExpression node is dominated by the test that the node supplying its name (the node left of '(') is an ASTField", Floor: 1}
+	nodeParamOf := func(fn *ssa.Function) (*ssa.Parameter, *ssa.Alloc) {
+		var np *ssa.Parameter
+		for _, p := range fn.Params {
+			if c.isASTNode(p.Type()) {
+				if np != nil {
+					return nil, nil
+				}
+				np = p
 			}
 		}
-		if dominated {
-			r.ok(key, c.pos(ret.Pos()), fname(fn), "the function-expression node is only built when the left node is an ASTField (identifier)")
-		} else {
-			r.viol(key, c.pos(ret.Pos()), fname(fn), "a function expression can be built although the node before '(' is not an identifier (ASTField): the grammar only allows unquoted-string '(' args ')'")
+		if np == nil {
+			return nil, nil
+		}
+		return np, paramSpill(np)
+	}
+	isNodeOf := func(v ssa.Value, np *ssa.Parameter, spill *ssa.Alloc) bool {
+		if v == np {
+			return true
+		}
+		if spill == nil {
+			return false
+		}
+		if v == spill {
+			return true
+		}
+		if u, ok := v.(*ssa.UnOp); ok && u.Op == token.MUL && u.X == spill {
+			return true
+		}
+		return false
+	}
+	n := 0
+	for _, fn := range allFuncs(c.SLib) {
+		for _, b := range fn.Blocks {
+			for _, in := range b.Instrs {
+				st, ok := in.(*ssa.Store)
+				if !ok {
+					continue
+				}
+				fa, ok := st.Addr.(*ssa.FieldAddr)
+				if !ok || fa.Field != fNodeType || !c.isASTNodePtr(fa.X.Type()) {
+					continue
+				}
+				if k, ok := constInt(st.Val); !ok || k != c.A.NT["ASTFunctionExpression"] || !types.Identical(st.Val.Type(), c.A.NodeTypeT) {
+					continue
+				}
+				n++
+				r.Instances++
+				key := fmt.Sprintf("callee|%s#%d", fn.Name(), n)
+				// the name payload stored into the same literal
+				var nameVal ssa.Value
+				for _, in2 := range b.Instrs {
+					if st2, ok := in2.(*ssa.Store); ok {
+						if fa2, ok := st2.Addr.(*ssa.FieldAddr); ok && fa2.X == fa.X && fa2.Field == fValue {
+							nameVal = st2.Val
+						}
+					}
+				}
+				if mi, ok := nameVal.(*ssa.MakeInterface); ok {
+					nameVal = mi.X
+				}
+				if ex, ok := nameVal.(*ssa.Extract); ok {
+					if ta, ok := ex.Tuple.(*ssa.TypeAssert); ok {
+						nameVal = ta
+					}
+				}
+				if ta, ok := nameVal.(*ssa.TypeAssert); ok {
+					nameVal = ta.X
+				}
+				if nameVal == nil {
+					r.undecided(key, c.pos(st.Pos()), fname(fn), "the function-expression node is built without a name payload")
+					continue
+				}
+				base, fld, ok := fieldRead(nameVal)
+				np, spill := nodeParamOf(fn)
+				if !ok || fld != fValue || np == nil || !isNodeOf(base, np, spill) {
+					r.undecided(key, c.pos(st.Pos()), fname(fn), "the function name is not the payload of the function's node parameter")
+					continue
+				}
+				// guards: blocks entered only when that node's nodeType == ASTField
+				dominated := false
+				for _, gb := range fn.Blocks {
+					ifi := blockIf(gb)
+					if ifi == nil {
+						continue
+					}
+					bo, ok := ifi.Cond.(*ssa.BinOp)
+					if !ok || (bo.Op != token.EQL && bo.Op != token.NEQ) {
+						continue
+					}
+					k, ok := constInt(bo.Y)
+					if !ok || k != c.A.NT["ASTField"] || !types.Identical(bo.Y.Type(), c.A.NodeTypeT) {
+						continue
+					}
+					gbase, gfld, ok := fieldRead(bo.X)
+					if !ok || gfld != fNodeType || !isNodeOf(gbase, np, spill) {
+						continue
+					}
+					idx := 0
+					if bo.Op == token.NEQ {
+						idx = 1
+					}
+					s := gb.Succs[idx]
+					if len(s.Preds) == 1 && s.Dominates(b) {
+						dominated = true
+					}
+				}
+				if !dominated {
+					r.viol(key, c.pos(st.Pos()), fname(fn), "a function expression can be built although the node before '(' is not an identifier (ASTField): the grammar only allows unquoted-string '(' args ')'")
+					continue
+				}
+				// the tested node is the node left of '(': led's own parameter, or led hands it over unchanged
+				if fn != c.A.Led {
+					lnp, lspill := nodeParamOf(c.A.Led)
+					sites, bad := 0, ""
+					for _, caller := range allFuncs(c.SLib) {
+						for _, call := range callsTo(caller, fn) {
+							sites++
+							argIdx := -1
+							for i, p := range fn.Params {
+								if p == np {
+									argIdx = i
+								}
+							}
+							if caller != c.A.Led || lnp == nil || argIdx < 0 || !isNodeOf(call.Call.Args[argIdx], lnp, lspill) {
+								bad = c.pos(call.Pos())
+							}
+						}
+					}
+					if sites == 0 || bad != "" {
+						r.undecided(key, c.pos(st.Pos()), fname(fn), "the helper building the function expression is not called from led with led's left node ("+bad+")")
+						continue
+					}
+				}
+				r.ok(key, c.pos(st.Pos()), fname(fn), "the function-expression node is only built when the left node is an ASTField (identifier)")
+			}
 		}
 	}
 	return r
